@@ -130,6 +130,8 @@ def model_fields(c):
         return ["gamend", str(c["meta"]), hx(c["subj"])]
     if k == "gmerge":
         return ["gmerge", str(c["meta"])]
+    if k == "gconfig":
+        return ["gconfig", "1" if c["apc"] else "0"]
     if k == "greset":
         return ["greset", c["kind"], hx(c["arg"]) if c["kind"] == "patch" else str(c["arg"])]
     if k == "edit":
@@ -138,6 +140,9 @@ def model_fields(c):
         return ["rebase", c["kind"], hx(c["arg"]) if c["kind"] == "patch" else str(c["arg"])]
     if k == "squash":
         return ["squash", hxlist(c["ranges"]), hx(c["name"]), str(c["meta"])]
+    if k == "pick":
+        return ["pick", c["kind"], hx(c["arg"]) if c["kind"] == "patch" else str(c["arg"]),
+                hx(c["name"]) if c.get("name") is not None else "_", fl]
     raise ValueError(k)
 
 
@@ -200,6 +205,9 @@ def stg_argv(c):
         return ["rebase", "--", ("{base}~%d" if c["kind"] == "base" else "HEAD~%d") % c["arg"]]
     if k == "squash":
         return ["squash", "-m", "x%d squashed" % c["meta"], "-n", esc(c["name"]), "--"] + [esc(x) for x in c["ranges"]]
+    if k == "pick":
+        src = esc(c["arg"]) if c["kind"] == "patch" else (("{base}~%d" if c["kind"] == "base" else "HEAD~%d") % c["arg"])
+        return ["pick"] + fl + (["--name", esc(c["name"])] if c.get("name") is not None else []) + ["--", src]
     if k == "reset":
         a = ["reset"] + fl
         if c.get("entry") is not None:
@@ -342,6 +350,9 @@ class RealRepo:
             tree = r.rev("HEAD^{tree}")
             p = r.git(["commit-tree", tree, "-p", head, "-p", par, "-m", "x%d merge" % c["meta"]])
             r.git(["reset", "-q", "--hard", p.stdout.strip()])
+            return 0, ""
+        if k == "gconfig":
+            r.git(["config", "stgit.push.allow-conflicts", "true" if c["apc"] else "false"])
             return 0, ""
         if k == "greset":
             if c["kind"] == "patch":
@@ -726,8 +737,25 @@ def model_view(msnap, mgraph):
         "branch_tree": mgraph.info(msnap["branch"])["tree"],
         "head_is_top": (st is None) or (st["head"] == msnap["branch"]),
         "log_len": log_len(msnap, mgraph),
+        "below_base": below_base(msnap, st, mgraph),
         "deltas": patch_deltas(st, mgraph) if st else {},
     }
+
+
+def below_base(msnap, st, mgraph):
+    """how many commits `stg uncommit` could take: single-parent commits from the base downwards"""
+    o = msnap["branch"]
+    if st and st["A"]:
+        info = mgraph.info(st["P"][st["A"][0]])
+        o = info["parents"][0] if info["parents"] else None
+    n = 0
+    while o is not None and n < 8:
+        par = mgraph.info(o)["parents"]
+        if len(par) != 1:
+            break
+        n += 1
+        o = par[0]
+    return n
 
 
 def patch_deltas(st, mgraph):
